@@ -877,6 +877,35 @@ func checkNodeWiring(l *Ledger, pinfo *parserInfo) {
 		}
 	}
 	// ForStmt increment ordinal: second expression when a condition was parsed — covered by the pattern expression#[12]
+
+	// what a parse function hands back is made on the path that hands it back: a node built there, the result of a
+	// sub-parse made there, a list of such, or nothing.  A node fetched from somewhere else (a table of nodes seen
+	// before, a field of the parser) would stand at two places of the tree at once — with the tokens and the Line of
+	// the place it was first built for.
+	reFresh := regexp.MustCompile(`^(nil|node:\w+#\d+|\w+#\d+|list\[.*\]|obj:[^ ]*\[:\])$`)
+	nRet := 0
+	for _, name := range pinfo.Names {
+		bad := map[string]bool{}
+		n := 0
+		for _, p := range successPaths(pinfo.Models[name]) {
+			n++
+			if !reFresh.MatchString(p.ret) {
+				bad[p.ret] = true
+			}
+		}
+		nRet += n
+		if n == 0 {
+			continue
+		}
+		if len(bad) == 0 {
+			l.Discharge(rule+"/fresh-nodes", "parser."+name, "", fmt.Sprintf("every successful path returns a node built, or a sub-parse made, on that path (%d paths)", n), true)
+		} else {
+			l.Violate(rule+"/fresh-nodes", "parser."+name, "", "parser."+name+" hands back "+strings.Join(sortedKeysOf(bad), ", ")+": a node that was not built on this path — it would occur at several places of the tree with the tokens and the Line of the first one")
+		}
+	}
+	if nRet < 100 {
+		l.Violate(rule+"/fresh-nodes/vacuity", "parser returns", "", fmt.Sprintf("only %d successful parse paths seen", nRet))
+	}
 }
 
 var reRevIndexed = regexp.MustCompile(`^list\[([^\]]*)\]\[revidx:[^\]]*\]$`)
